@@ -159,6 +159,21 @@ Fixpoint explore (fuel : nat) (vals : avals) (frontier visited quiet : list stat
   end.
 Definition closure (vals : avals) (s : state) : list state := explore 400 vals [s] [s] [].
 
+(* every state reachable by internal steps (quiescent or not) *)
+Fixpoint explore_all (fuel : nat) (vals : avals) (frontier visited : list state) : list state :=
+  match fuel with
+  | 0 => visited
+  | S f =>
+      match frontier with
+      | [] => visited
+      | _ =>
+          let nxt := fold_left (fun acc s => add_new (succs vals s) acc) frontier [] in
+          let fresh := filter (fun s => negb (seen s visited)) nxt in
+          explore_all f vals fresh (visited ++ fresh)
+      end
+  end.
+Definition reach_all (vals : avals) (s : state) : list state := explore_all 400 vals [s] [s].
+
 (* ---------- stimuli ---------- *)
 Inductive stim :=
 | SEnq (p : Z) (adj : bool) (name : Z)
@@ -170,7 +185,11 @@ Inductive stim :=
 | SResize (len : Z)
 | SStop
 | SBreak
-| SAdj (id : Z) (val : Z).                 (* the adjust function of id returns val from now on *)
+| SAdj (id : Z) (val : Z)                  (* the adjust function of id returns val from now on *)
+| SBatch (subs : list stim).               (* stimuli given while the dispatcher is parked inside a held adjust function,
+                                              then the release: ONE observation for all of them.  Model: the labels in
+                                              order with ANY internal steps in between (a superset of what the hold
+                                              allows), then internal steps to quiescence. *)
 
 Definition set_val (id : nat) (z : Z) (vals : avals) : avals :=
   (id, z) :: filter (fun kv => negb (fst kv =? id)) vals.
@@ -187,19 +206,43 @@ Definition stim_label (vals : avals) (st : stim) : option label :=
   | SStop => Some Stop
   | SBreak => Some Break
   | SAdj _ _ => None
+  | SBatch _ => None
   end.
-Definition stim_vals (vals : avals) (st : stim) : avals :=
+Definition stim_vals1 (vals : avals) (st : stim) : avals :=
   match st with
   | SAdj id z => set_val (n id) z vals
   | SEnq p true name => set_val (n name) p vals   (* the harness' adjust functions start at the Enqueue priority;
                                                      the harness names item k "k", and k is its model id *)
   | _ => vals
   end.
+Definition stim_vals (vals : avals) (st : stim) : avals :=
+  match st with
+  | SBatch subs => fold_left stim_vals1 subs vals
+  | _ => stim_vals1 vals st
+  end.
 Definition stim_dflt (st : stim) : Z := match st with SErrRecv _ => (-1)%Z | _ => 0%Z end.
 
 (* all quiescent model states after one stimulus from one candidate state *)
+Fixpoint batch_states (vals : avals) (subs : list stim) (cur : list state) : list state :=
+  match subs with
+  | [] => cur
+  | st :: r =>
+      let nxt := fold_left (fun acc s =>
+                    match stim_label vals st with
+                    | Some l => match step fixed s l with
+                                | Some s1 => add_new (reach_all vals s1) acc
+                                | None => acc
+                                end
+                    | None => add_new [s] acc
+                    end) cur [] in
+      batch_states vals r nxt
+  end.
+
 Definition after (vals : avals) (st : stim) (s : state) : list state :=
   let s0 := set_trace [] s in
+  match st with
+  | SBatch subs => fold_left (fun acc s1 => add_new (closure vals s1) acc) (batch_states vals subs [s0]) []
+  | _ =>
   match stim_label vals st with
   | None => closure vals s0
   | Some l =>
@@ -210,6 +253,7 @@ Definition after (vals : avals) (st : stim) (s : state) : list state :=
                 | _ => []
                 end
       end
+  end
   end.
 
 Definition after_all (vals : avals) (st : stim) (cands : list state) : list state :=
